@@ -10,7 +10,7 @@ From ClapModel Require Import ParseProofs.Actions ParseProofs.Unparse ParseProof
 From ClapModel Require Import Base.Utf8 Lex.OsStrExtModel Lex.OsStrExtProofs ParseProofs.UnparseLift.
 From ClapModel Require Import ParseProofs.UnparseX ParseProofs.UnparseXProofs ParseProofs.UnparseXTree ParseProofs.UnparseXExamples.
 From ClapModel Require Import ParseProofs.Globals ParseProofs.UnparseGlobals ParseProofs.Spelling ParseProofs.UnparsePending ParseProofs.UnparseBridge.
-From ClapModel Require Import ParseProofs.Escape ParseProofs.UnparseXTrail ParseProofs.UnparseYTree ParseProofs.UnparseYExamples ParseProofs.UnparseUser ParseProofs.UnparsePendingLoop.
+From ClapModel Require Import ParseProofs.Escape ParseProofs.UnparseXTrail ParseProofs.UnparseYTree ParseProofs.UnparseYExamples ParseProofs.UnparseUser ParseProofs.LoopStep ParseProofs.UnparsePendingLoop.
 From Coq Require Import ZArith Sorting.Sorted Sorting.Permutation List.
 Import ListNotations.
 Open Scope N_scope.
@@ -933,3 +933,49 @@ Theorem C02_pending_bounded_nonvacuous : assert_app PendLoopEx.c = true /\
     a_num a = Some {| vmin := 1; vmax := 2 |} /\ p_raw p = [[65]; [66]].
 Proof. exact PendLoopEx.ex. Qed.
 Print Assumptions C02_pending_bounded_nonvacuous.
+
+(** (1, last part) HYPHEN / NEGATIVE-NUMBER VALUES OF POSITIONALS (UnparseX.v [hyphen_tok], [cluster_clear], [posx_ok]; UnparseXTrail.v
+    [wfx_hyp]).  [convx] puts no condition on a positional's [allow_hyphen_values] / [allow_negative_numbers] any more.  While the
+    counter points at such a positional: an unknown long flag, a cluster with an unknown short ([allow_hyphen_values]) or a
+    [-<number>] token ([allow_negative_numbers]) IS a value of that positional ([ItPos [v]], class [hyph_single]); a cluster is a
+    cluster only if it is neither ([cluster_clear], part of [wfx_item]).  The run of a MULTI-valued positional with hyphen
+    values swallows the rest of the line -- known flags, [--], subcommand names: tree constructor [YHyp], class [wfx_hyp];
+    all theorems [_y] above quantify over these trees too.  [C02_hyphen_run]: the loop on such a run. *)
+Theorem C02_hyphen_run : forall c, convx c = true ->
+  forall (vs : list bytes) pos vaf st, wfx_hyp c pos vs = true -> pend_inv c PSValuesDone st ->
+  parse_loop c vs (mkL PSValuesDone pos vaf false) st = (do s' <- apply_item c pos (ItPos vs) st; ROk (LDone s')).
+Proof. exact loop_hyp. Qed.
+Print Assumptions C02_hyphen_run.
+
+(** the token that looks like a flag and is a value: one step of the loop *)
+Theorem C02_hyphen_value_token : forall c, convx c = true -> forall (v : bytes) (rest : list bytes) pos vaf st a,
+  nosub c v = true -> hyphen_tok c pos v = true -> get_pos c pos = Some a ->
+  lookahead_off c pos -> check_terminator a v = false -> a_last a = false -> a_tva a = false ->
+  parse_loop c (v :: rest) (mkL PSValuesDone pos vaf false) st = pos_step_k c a v rest pos st.
+Proof. exact pos_branch_h. Qed.
+Print Assumptions C02_hyphen_value_token.
+
+(** Non-vacuity: [prog -v --opt <o> <pat> <num>] ([pat]: hyphen values, [num]: negative numbers) on [-v --opt X --weird -5] and
+    [-x -v -7]; [prog -v <cmd> <args>...] ([args]: hyphen values) with a subcommand [sub] on [-v C --foo -v -- sub]. *)
+Theorem C02_hyphen_positional_nonvacuous :
+  (is_set s_no_binary_name HEx.c0 = false /\ valid (with_bin HEx.c0 HEx.bin) = true /\ wfy_inv HEx.c HEx.hinv = true /\ wfy_inv HEx.c HEx.hinv2 = true /\
+   user_conventionalx HEx.c0 = true /\
+   no_globals (build_recursive (S (S (depth HEx.c))) (with_bin HEx.c0 HEx.bin)) = true /\
+   render_invy HEx.hinv = [[45; 118]; [45; 45; 111; 112; 116]; [88]; [45; 45; 119; 101; 105; 114; 100]; [45; 53]] /\
+   render_invy HEx.hinv2 = [[45; 120]; [45; 118]; [45; 55]]) /\
+  (exists m m2,
+    parse_top HEx.c0 (HEx.bin :: render_invy HEx.hinv) = OOk m /\
+    HEx.raw_of [112] m = Some [[[45; 45; 119; 101; 105; 114; 100]]] /\ HEx.raw_of [110] m = Some [[[45; 53]]] /\ HEx.raw_of [111] m = Some [[[88]]] /\
+    HEx.raw_of [118] m = Some [[[49]]] /\ HEx.idx_of_m [112] m = Some [4] /\ HEx.idx_of_m [110] m = Some [5] /\
+    parse_top HEx.c0 (HEx.bin :: render_invy HEx.hinv2) = OOk m2 /\
+    HEx.raw_of [112] m2 = Some [[[45; 120]]] /\ HEx.raw_of [110] m2 = Some [[[45; 55]]] /\ HEx.raw_of [118] m2 = Some [[[49]]] /\
+    HEx.idx_of_m [112] m2 = Some [1] /\ HEx.idx_of_m [110] m2 = Some [3]) /\
+  (is_set s_no_binary_name HEx.m0 = false /\ valid (with_bin HEx.m0 HEx.bin) = true /\ wfy_inv HEx.mc HEx.minv = true /\ user_conventionalx HEx.m0 = true /\
+   no_globals (build_recursive (S (S (depth HEx.mc))) (with_bin HEx.m0 HEx.bin)) = true /\
+   render_invy HEx.minv = [[45; 118]; [67]; [45; 45; 102; 111; 111]; [45; 118]; [45; 45]; [115; 117; 98]]) /\
+  (exists m,
+    parse_top HEx.m0 (HEx.bin :: render_invy HEx.minv) = OOk m /\ HEx.raw_of [99] m = Some [[[67]]] /\
+    HEx.raw_of [97] m = Some [[[45; 45; 102; 111; 111]; [45; 118]; [45; 45]; [115; 117; 98]]] /\
+    HEx.raw_of [118] m = Some [[[49]]] /\ HEx.idx_of_m [97] m = Some [3; 4; 5; 6] /\ ms_sub m = None).
+Proof. exact (conj HEx.ex_hyps (conj HEx.ex_parse (conj HEx.ex_multi_hyps HEx.ex_multi_parse))). Qed.
+Print Assumptions C02_hyphen_positional_nonvacuous.
